@@ -435,6 +435,20 @@ func runPrograms(args []string) int {
 			fmt.Fprintln(os.Stderr, err)
 			return 2
 		}
+		// only the packages of the generated programs (module paths m, m0, m1, ...) are traced and gated;
+		// standard-library imports such as unsafe are not analysed by this driver and carry no facts
+		t.Filter = func(path string) bool {
+			i := strings.Index(path, "/")
+			if i <= 0 || path[0] != 'm' {
+				return false
+			}
+			for _, c := range path[1:i] {
+				if c < '0' || c > '9' {
+					return false
+				}
+			}
+			return true
+		}
 		tracer = t
 		*jobs = 1
 	}
